@@ -1,7 +1,7 @@
 """C06 - a valid index is always equivalent to one rebuilt from storage."""
 ID = "C06"
 from .common import *
-FUNCTIONS = INDEX_MUTATORS + [TF + f for f in ("reindex", "_reset_database", "_remove_helper", "remove", "remove_all", "drop_measurement")] + ["lemma:count"]
+FUNCTIONS = INDEX_MUTATORS + [IX + "latest_time"] + [TF + f for f in ("reindex", "_reset_database", "_remove_helper", "remove", "remove_all", "drop_measurement", "_insert_helper", "insert", "insert_multiple", "_update_helper", "__len__")] + ["lemma:count"]
 ASSUMED = []
 STANDIN = "standins/dbdiff.py"
 TRUSTED = [
